@@ -81,7 +81,9 @@ class Sched:
         self.interrupt_at: int | None = None    # k-th yield of the control thread raises KeyboardInterrupt
         self._ctl_yields = 0
         # start-up interrupt: the control thread's yield at the spawn of this logical thread
-        # ("inference" | "training" | "webapi") raises KeyboardInterrupt instead of spawning it
+        # ("inference" | "training" | "webapi") raises KeyboardInterrupt instead of spawning it;
+        # "after:inference" | "after:training": right after the thread has been started (the statement
+        # that follows `thread.start()` in the caller is never reached)
         self.boot_interrupt: str | None = None
         self.eps = 1e-9
 
@@ -397,6 +399,10 @@ class FakeThread:
         self.sched.point("spawn", self.lname)
         self.lt = self.sched.spawn(self.lname, lambda: self.target(*self.args, **self.kwargs))
         self.sched.log("spawn", self.lname)
+        if self.sched.boot_interrupt == "after:" + self.lname and self.sched.me().name == "control":
+            self.sched.boot_interrupt = None
+            self.sched.log("interrupt", "boot:after:" + self.lname)
+            raise KeyboardInterrupt()
 
     def join(self, timeout: float | None = None) -> None:
         lt = self.lt
